@@ -12,6 +12,7 @@ var c15Programs = []string{
 	`a = b[1:2] + c[-1] - d.e.f`, `p = !q == -r * +s`, `n = 1 : 10`, `t = x => y => x + y`,
 	// strings and comments that start a statement, directly or after another statement
 	`"a string statement"`, "`a raw one`", `a = 1; "second statement"`, `a = 1 "glued string"`, "println(1)\n`raw after a line`", `/*/ tricky */ a`, `a = 1 /*/ c */`, `/* only */`,
+	"s = `Hello, world`", "println(`it's (a) b`)", "f(`a) b`, 1)", "x = [`]`, `}`]", "{`k)`: `v(`}", `t = "it's (a) b" + "c]"`,
 	`if a {"in a block"}`, `f = () => "lambda value"`, `["in", "a list"]`, `{"k": "v"}`, `return "s"`,
 }
 
@@ -104,6 +105,8 @@ var c15Scripts = [][]string{
 	{`p = {1: a}`, `p[2] = b`, `del(p[1])`, `println(p)`},
 	{`func r(n) { if n <= 0 { return 0 }; n + r(n - 1) }`, `println(r(4))`, `w = r(3)`},
 	{`s = "x"`, `s = s * 3`, `println(s)`, `println(len(s))`},
+	{`inc = macro(u) { quote(unquote(u) + 1) }`, `dbl = macro(u) { quote(unquote(u) * 2) }`, `neg = macro(u) { quote(-unquote(u)) }`, `println(inc(a), dbl(b), neg(a))`},
+	{`m1 = macro() { quote(1) }`, `m2 = macro() { quote(2) }`, `z = m1() + m2()`, `println(z)`},
 	{`if a < b { println("lt") } else { println("ge") }`, `q = a < b`, `println(q)`},
 }
 
@@ -144,7 +147,7 @@ func init() {
 		Reach:  []string{"line mode accepts", "prefix parsed", "script split"},
 		Bounds: map[string]interface{}{"same_tree": "all byte strings of length 0..2; 45 contexts + 1 arbitrary byte (2 thorough); the symbolic-byte skeletons of C02 and a quarter of its concrete ones (all thorough); 13 complete programs",
 			"continuation": "13 programs, every cut at a token boundary inside an open ( [ {, inside a string or block comment (every other byte), or right after a binary operator, as classified by the driver's own scanner (bounded enumeration: the solver has no part in this half)",
-			"incremental":  "12 scripts of 3-5 top-level statements (functions and redefinition, macros before use, loops, containers, closures, an erroring statement, constants, recursion) x every split into consecutive chunks, for all int64 a, b"},
+			"incremental":  "14 scripts of 3-5 top-level statements (incl. adjacent macro definitions) (functions and redefinition, macros before use, loops, containers, closures, an erroring statement, constants, recursion) x every split into consecutive chunks, for all int64 a, b"},
 		Outside: []string{"programs beyond the listed ones", "top-level return (excluded by the property)"},
 	})
 }
